@@ -56,6 +56,8 @@ type replayFile struct {
 	Detail   string                 `json:"detail,omitempty"`
 	Property string                 `json:"property,omitempty"`
 	Tables   map[string][]string    `json:"tables,omitempty"`
+	Repeat   int                    `json:"repeat,omitempty"`
+	Schedule []int                  `json:"schedule,omitempty"`
 }
 
 type nativeResult struct {
@@ -201,7 +203,10 @@ func runCheck(id, tier string, seed int64, only string) int {
 	}
 	for _, rep := range reports {
 		for k, v := range rep.Violations {
-			rf := replayFile{Harness: rep.Harness, Label: v.Label, Inputs: v.Inputs, Forks: forksToInts(v.Forks), Tier: tierN, Detail: v.Detail, Property: id, Tables: v.Tables}
+			rf := replayFile{Harness: rep.Harness, Label: v.Label, Inputs: v.Inputs, Forks: forksToInts(v.Forks), Tier: tierN, Detail: v.Detail, Property: id, Tables: v.Tables, Schedule: forksToInts(v.Schedule)}
+			if len(v.Schedule) > 0 {
+				rf.Repeat = 300
+			}
 			p := filepath.Join(rdir, fmt.Sprintf("%s-v%d.json", rep.Harness, k))
 			pend = append(pend, pending{rf, p, true})
 		}
@@ -320,7 +325,23 @@ func runCheck(id, tier string, seed int64, only string) int {
 			}
 		}
 	}
+	mapSites := w.MapRangeSites()
+	covered := map[string]bool{}
+	for _, rep := range reports {
+		for f := range rep.MapRanges {
+			covered[f] = true
+		}
+	}
+	var mapCovered, mapUncovered []string
+	for _, f := range mapSites {
+		if covered[f] {
+			mapCovered = append(mapCovered, f)
+		} else {
+			mapUncovered = append(mapUncovered, f)
+		}
+	}
 	extra := map[string]interface{}{
+		"map_range_sites_in_zn_packages": len(mapSites), "map_range_sites_executed": mapCovered, "map_range_sites_not_executed": mapUncovered,
 		"load_s": loadS, "spurious_counterexamples": spurious, "engine_mismatches": mismatches,
 		"known_findings_hit": knownHit, "vacuity_witnesses_violated": witnessOK, "vacuity_witnesses": len(witnesses),
 		"zn_source_files_loaded": len(w.ZnFiles),
